@@ -32,8 +32,9 @@ impl Code {
         match self
             .instructions
             .iter()
-            .try_fold(Variable::Void, |_, instruction| instruction.exec(interpreter))
-        {
+            .try_fold(Variable::Void, |_, instruction| {
+                instruction.exec(interpreter)
+            }) {
             Ok(var) => Ok(var),
             Err(ExecStop::Error(err)) => Err(err),
             Err(_) => unreachable!("Return statement outside of function body"),
